@@ -68,21 +68,101 @@ theorem exists_but_uncached_retries (s s1 : Sys) (jo : JobObj) (rj : Job) (tasks
   unfold syncCreateTask
   simp [hc, hp]
 
-/-- A task listed in the status that is not recorded finished and whose object still exists on
-the server is always found by the sync (cache, else live GET) — it is never treated as lost. -/
-theorem existing_task_never_lost (s : Sys) (ref : TaskRef) (p : PodObj)
+/-- A task listed in the status that is not recorded finished and whose object — controlled by the
+Job — still exists on the server is always found by the sync (cache, else live GET) — it is never
+treated as lost.  Since the repair of F22 an object that is not controlled by the Job is not the
+task; a cached object of that name that is NOT controlled by the Job is a cache miss (the live GET
+finds the task), so the hypothesis on the pod cache only concerns cached pods of the Job. -/
+theorem existing_task_never_lost (s : Sys) (jo : JobObj) (ref : TaskRef) (p : PodObj)
     (hfin : ref.finishTimestamp = none) (hp : findPod s.pods ref.name = some p)
-    (hcache : ∀ q, findPod s.podCache ref.name = some q → (podTask q).isSome)
+    (hown : p.ownerUid = some jo.uid)
+    (hcache : ∀ q, findPod s.podCache ref.name = some q → q.ownerUid = some jo.uid → (podTask q).isSome)
     (ht : (podTask p).isSome) :
-    (getTaskForRef s ref).isSome := by
-  unfold getTaskForRef liveGetTask
+    (getTaskForRef s jo ref).isSome := by
+  unfold getTaskForRef liveGetTask isControlledByJob
   cases hc : findPod s.podCache ref.name with
   | some q =>
-    have hq := hcache q hc
-    cases hpt : podTask q with
-    | none => rw [hpt] at hq; cases hq
-    | some t => simp [hfin, hpt]
-  | none => simpa [hc, hfin, hp] using ht
+    by_cases hqo : q.ownerUid = some jo.uid
+    · have hq := hcache q hc hqo
+      cases hpt : podTask q with
+      | none => rw [hpt] at hq; cases hq
+      | some t => simp [hfin, hpt, hqo]
+    · simpa [hqo, hfin, hp, hown] using ht
+  | none => simpa [hc, hfin, hp, hown] using ht
+
+/-- F22, one lookup: whatever `getTaskForRef` returns for a ref was read from a pod — of the pod
+cache or of the server — that carries the ref's name AND is controlled by the Job.  An object that
+is not controlled by the Job is never read as a task. -/
+theorem read_task_is_owned (s : Sys) (jo : JobObj) (ref : TaskRef) (t : Task)
+    (h : getTaskForRef s jo ref = some t) :
+    ∃ p, (findPod s.podCache ref.name = some p ∨ findPod s.pods ref.name = some p) ∧
+      p.ownerUid = some jo.uid ∧ podTask p = some t := by
+  have live : ∀ t, liveGetTask s jo ref.name = some t →
+      ∃ p, findPod s.pods ref.name = some p ∧ p.ownerUid = some jo.uid ∧ podTask p = some t := by
+    intro t h
+    unfold liveGetTask isControlledByJob at h
+    cases hp : findPod s.pods ref.name with
+    | none => simp [hp] at h
+    | some p =>
+      simp only [hp] at h
+      by_cases ho : p.ownerUid = some jo.uid
+      · simp only [ho, decide_true, Bool.not_true, Bool.false_eq_true, ↓reduceIte] at h
+        exact ⟨p, rfl, ho, h⟩
+      · simp [ho] at h
+  unfold getTaskForRef isControlledByJob at h
+  cases hc : findPod s.podCache ref.name with
+  | none =>
+    simp only [hc] at h
+    split at h
+    · cases h
+    · obtain ⟨p, hp, ho, hpt⟩ := live t h
+      exact ⟨p, Or.inr hp, ho, hpt⟩
+  | some q =>
+    simp only [hc] at h
+    by_cases ho : q.ownerUid = some jo.uid
+    · simp only [ho, decide_true, Bool.not_true, Bool.false_eq_true, ↓reduceIte] at h
+      cases hq : podTask q with
+      | none => simp [hq] at h
+      | some t' =>
+        simp only [hq] at h
+        split at h
+        · cases h; exact ⟨q, Or.inl rfl, ho, hq⟩
+        · obtain ⟨p, hp, ho', hpt⟩ := live t h
+          exact ⟨p, Or.inr hp, ho', hpt⟩
+    · simp only [ho, decide_false, Bool.not_false, ↓reduceIte] at h
+      split at h
+      · cases h
+      · obtain ⟨p, hp, ho', hpt⟩ := live t h
+        exact ⟨p, Or.inr hp, ho', hpt⟩
+
+/-- … and a cached object of the ref's name that is not controlled by the Job is a cache MISS: a
+finished ref is gone, an unfinished one is looked up on the server; the object a live GET returns
+is the task only if it is controlled by the Job. -/
+theorem foreign_cached_is_cache_miss (s : Sys) (jo : JobObj) (ref : TaskRef) (q : PodObj)
+    (hq : findPod s.podCache ref.name = some q) (hown : q.ownerUid ≠ some jo.uid) :
+    getTaskForRef s jo ref = if ref.finishTimestamp.isSome then none else liveGetTask s jo ref.name := by
+  unfold getTaskForRef isControlledByJob
+  simp [hq, hown]
+
+/-- … so a foreign object in the pod cache AND on the server (or nothing on the server) under the
+ref's name means "task absent". -/
+theorem foreign_means_absent (s : Sys) (jo : JobObj) (ref : TaskRef) (q : PodObj)
+    (hq : findPod s.podCache ref.name = some q) (hown : q.ownerUid ≠ some jo.uid)
+    (hsrv : ∀ p, findPod s.pods ref.name = some p → p.ownerUid ≠ some jo.uid) :
+    getTaskForRef s jo ref = none := by
+  rw [foreign_cached_is_cache_miss s jo ref q hq hown]
+  split
+  · rfl
+  · unfold liveGetTask isControlledByJob
+    cases hp : findPod s.pods ref.name with
+    | none => rfl
+    | some p => simp [hsrv p hp]
+
+theorem foreign_live_means_absent (s : Sys) (jo : JobObj) (name : String) (q : PodObj)
+    (hq : findPod s.pods name = some q) (hown : q.ownerUid ≠ some jo.uid) :
+    liveGetTask s jo name = none := by
+  unfold liveGetTask isControlledByJob
+  simp [hq, hown]
 
 example : ∃ s jo idx retry s1, apiCreatePod s jo idx retry = (s1, .exists) := by
   refine ⟨{ pods := [{ pod := { name := "job-h-0" } }] }, ⟨"job", "u", {}, true, 1⟩, { hash := "h" }, 0, _, rfl⟩
